@@ -50,6 +50,177 @@ func runC13(p *core.Program, r *core.Report) {
 	c13R4(p, r)
 	r.Floor("R5", 3)
 	a10Report(p, r, "R5", "pkg/types")
+	c13R6(p, r)
+	c13R7(p, r)
+}
+
+// c13R6: the read accessors of a loaded package are plain reads of what Load
+// stored (no rewriting on the way out), and SourceDir derives the directory
+// from the Dir and Path of one and the same module value.
+func c13R6(p *core.Program, r *core.Report) {
+	const rule = "R6"
+	r.Floor(rule, 12)
+	plainPath := func(f *core.Func, e ast.Expr) bool {
+		info := f.Info()
+		recv := recvIdent(f)
+		for {
+			e = ast.Unparen(e)
+			switch x := e.(type) {
+			case *ast.SelectorExpr:
+				if core.FieldOf(info, x) == nil {
+					return false
+				}
+				e = x.X
+			case *ast.Ident:
+				return core.SameRef(info, x, recv)
+			default:
+				return false
+			}
+		}
+	}
+	isParam := func(f *core.Func, e ast.Expr) bool {
+		v := core.VarOf(f.Info(), e)
+		return v != nil && isParamOf(f, v)
+	}
+	for _, name := range []string{"(*pkgInfo).Pkg", "(*pkgInfo).Module", "(*pkgInfo).Imports", "(*pkgInfo).Files", "(*pkgInfo).FileSet",
+		"(*pkgInfo).Constant", "(*pkgInfo).Constants", "(*pkgInfo).Type", "(*pkgInfo).Types", "(*pkgInfo).Function", "(*pkgInfo).Functions", "(*Universe).SumFile", "(*Universe).Package"} {
+		f := p.FuncByName("pkg/types", name)
+		if f == nil {
+			r.Anchor(rule, "pkg/types."+name)
+			continue
+		}
+		info := f.Info()
+		ok := false
+		stmts := f.Body.List
+		var ret *ast.ReturnStmt
+		if len(stmts) >= 1 {
+			ret, _ = stmts[len(stmts)-1].(*ast.ReturnStmt)
+		}
+		if ret != nil && len(ret.Results) == 1 {
+			e := ast.Unparen(ret.Results[0])
+			switch {
+			case len(stmts) == 1 && plainPath(f, e):
+				ok = true
+			case len(stmts) == 1:
+				if ix, isIx := e.(*ast.IndexExpr); isIx && plainPath(f, ix.X) && isParam(f, ix.Index) {
+					ok = true
+				}
+			case len(stmts) == 2:
+				// v, _ := u.m[key]; return v
+				if as, isAs := stmts[0].(*ast.AssignStmt); isAs && len(as.Rhs) == 1 && core.VarOf(info, as.Lhs[0]) == core.VarOf(info, e) && core.VarOf(info, e) != nil {
+					if ix, isIx := ast.Unparen(as.Rhs[0]).(*ast.IndexExpr); isIx && plainPath(f, ix.X) && isParam(f, ix.Index) {
+						ok = true
+					}
+				}
+			}
+		}
+		r.Check(ok, rule, f, strings.TrimPrefix(name, "(*pkgInfo).")+" is a plain read of what Load stored", f.Node().Pos(), "single return of a receiver field (indexed by the parameter)",
+			"the accessor computes, substitutes or filters instead of returning the stored value: what callers see no longer mirrors the type checker's / go list's view (e.g. a Module() that answers the replacement module breaks SourceDir and LocateInPackage, which slice the package path by the module path)")
+	}
+	// SourceDir: Dir and Path of the same module value, suffix = PkgPath[len(Path):]
+	sd := p.FuncByName("pkg/types", "(*pkgInfo).SourceDir")
+	if sd == nil {
+		r.Anchor(rule, "pkg/types.(*pkgInfo).SourceDir")
+		return
+	}
+	ok := false
+	why := "no filepath.Join(<module>.Dir, PkgPath[len(<module>.Path):])"
+	for _, ff := range p.Funcs() {
+		if ff.Root() != sd {
+			continue
+		}
+		info := ff.Info()
+		for _, c := range core.CallsTo(info, ff.Body, true, "path/filepath.Join") {
+			if len(c.Args) != 2 {
+				continue
+			}
+			d, isSel := ast.Unparen(c.Args[0]).(*ast.SelectorExpr)
+			se, isSlice := ast.Unparen(c.Args[1]).(*ast.SliceExpr)
+			if !isSel || d.Sel.Name != "Dir" || !isSlice || se.High != nil {
+				continue
+			}
+			lc, isLen := ast.Unparen(se.Low).(*ast.CallExpr)
+			if !isLen || core.CalleeName(info, lc) != "builtin.len" {
+				continue
+			}
+			ps, isSel2 := ast.Unparen(lc.Args[0]).(*ast.SelectorExpr)
+			pk, isSel3 := ast.Unparen(se.X).(*ast.SelectorExpr)
+			switch {
+			case !isSel2 || ps.Sel.Name != "Path":
+				why = "the suffix is not cut at len(<module>.Path)"
+			case !core.SameRef(info, ps.X, d.X):
+				why = "Dir and Path are taken from different module values"
+			case !isSel3 || pk.Sel.Name != "PkgPath":
+				why = "the suffix is not taken from the package's own PkgPath"
+			default:
+				ok = true
+			}
+		}
+	}
+	r.Check(ok, rule, sd, "SourceDir = <module>.Dir + PkgPath[len(<module>.Path):] for one module value", sd.Node().Pos(), "filepath.Join(m.Dir, p.PkgPath[len(m.Path):])", why)
+}
+
+// c13R7: the universe is read-only after Load. Methods of the loaded package /
+// universe write no receiver state (no caches filled while generators run),
+// except the reviewed idempotent SourceDir memo.
+func c13R7(p *core.Program, r *core.Report) {
+	const rule = "R7"
+	r.Floor(rule, 2)
+	n := 0
+	for _, f := range p.Funcs() {
+		root := f.Root()
+		if core.RelPkg(f.Pkg.PkgPath) != "pkg/types" || root.Decl == nil || root.Decl.Recv == nil {
+			continue
+		}
+		rt := core.NamedTypeName(f.Info().TypeOf(root.Decl.Recv.List[0].Type))
+		if rt != core.G("pkg/types.pkgInfo") && rt != core.G("pkg/types.Universe") {
+			continue
+		}
+		n++
+		info := f.Info()
+		recvObj := info.ObjectOf(recvIdent(root).(*ast.Ident))
+		for _, w := range nonLocalWrites(f) {
+			onRecv := false
+			switch x := w.(type) {
+			case *ast.AssignStmt:
+				for _, l := range x.Lhs {
+					if core.Mentions(info, l, recvObj) {
+						onRecv = true
+					}
+				}
+			case *ast.IncDecStmt:
+				onRecv = core.Mentions(info, x.X, recvObj)
+			default:
+				onRecv = core.Mentions(info, w, recvObj)
+			}
+			if !onRecv {
+				continue
+			}
+			if root.Name == "(*pkgInfo).SourceDir" {
+				if as, ok := w.(*ast.AssignStmt); ok && len(as.Lhs) == 1 {
+					if fld := core.FieldOf(info, as.Lhs[0]); fld != nil && fld.Name() == "sourceDir" {
+						r.ReviewedOK(rule, f, "memo of the derived source directory: "+core.ExprStr(w), w.Pos(), "idempotent: the stored value is computed from fields that are never written after Load (Module, PkgPath)")
+						continue
+					}
+				}
+			}
+			r.Bad(rule, f, "loaded package state is written after Load: "+core.ExprStr(w), w.Pos(), "a method of the loaded universe mutates its receiver while generators run: answers (doc lines, tables) may depend on earlier calls")
+		}
+		ast.Inspect(f.Body, func(nd ast.Node) bool {
+			if lit, ok := nd.(*ast.FuncLit); ok && lit != f.Lit {
+				return false
+			}
+			c, ok := nd.(*ast.CallExpr)
+			if !ok || !mutatingSyncMethods[core.CalleeName(info, c)] {
+				return true
+			}
+			if core.Mentions(info, recvOf(c), recvObj) {
+				r.Bad(rule, f, "a cache on the loaded package is filled after Load: "+core.ExprStr(c), c.Pos(), "values handed out by the universe are cached and shared between callers: a caller that edits what it got (Context.Doc trims the type name in place) changes what the next caller sees - the second lookup of the same declaration returns different doc lines")
+			}
+			return true
+		})
+	}
+	r.OK(rule, nil, "methods of the loaded universe write no receiver state", token.NoPos, itoa(int64(n))+" method bodies scanned")
 }
 
 // tableKind classifies a map field by its value type.
